@@ -7,7 +7,8 @@
    4. print_*            item_print of a based number; print then read
    5. convert_*          the rule function number_type_convert
    6. arith_*            based numbers in + - * /: the left type is kept
-   7. binary64           as_i64 (fofZ n) = n on a stated finite family; exact rationals: all n
+   7. binary64           as_i64 (fofZ n) = n: a finite family by computation, every n < 2^53
+                         from the Floats axioms, every i64 for exact rationals
    8. examples           end to end through the executable pipeline *)
 From SC.Model Require Import Base Num Types Config Case Items RuleFns Format Lexer.
 From Coq Require Import ZArith Lia.
@@ -284,7 +285,8 @@ Proof.
   destruct (Z.ltb_spec n (2 ^ 63)); [reflexivity | lia].
 Qed.
 
-(* what does not fit an i64 is not read at all (the literal is skipped, no wrong value) *)
+(* what does not fit an i64 is declined by the based reader (the repaired code skips the
+   literal instead of panicking; the text is then left to the other tokenizers) *)
 Theorem from_radix_too_big b upper n : 2 <= b <= 36 -> 2 ^ 63 <= n < 2 ^ 64 ->
   from_radix b (radix_digits 70 upper b n []) = None.
 Proof.
@@ -333,7 +335,7 @@ Proof.
   - apply from_radix_printed; lia.
 Qed.
 
-(* a negative value prints its 64-bit two's complement; that text is not an i64 literal *)
+(* a negative value prints its 64-bit two's complement; the based reader declines that text *)
 Theorem print_negative cfg lang year (x : F) t : based t -> as_i64 x < 0 ->
   exists ds,
     item_print cfg lang year (INumber x t) = Ok (prefix_of t ++ ds) /\
@@ -556,6 +558,210 @@ Theorem examples :
   from_radix 16 (s "7FFFFFFFFFFFFFFF") = Some (f64_of_Z (2 ^ 63 - 1)) /\
   from_radix (F:=float) 16 (s "8000000000000000") = None.
 Proof. vm_compute. repeat split; reflexivity. Qed.
+
+(* REFUTED at the level of whole lines (reported defect of the implementation, reproduced by the
+   model): the money regex `[0-9]+[ ]*[a-zA-Z]{2,}` runs before the number regexes, so a hex
+   literal in which a digit is followed by a run of letters that is a currency code is read as
+   money.  `205 to hex` prints 0xCD, and the line `0xCD` is 0 XCD; likewise 175 = 0xAF (XAF);
+   0x1AED (1 AED) is an error.  Codes made of hex letters in config.json: aed bbd cad cdf, and
+   xaf xcd right after the leading 0.  The digit-level and item-level theorems above are not
+   affected (the digits after the prefix do read back); what fails is the tokenizer's choice. *)
+Theorem readback_refuted :
+  run (s "205 to hex") = [Some (s "0xCD", Some (TNumber (f64_of_Z 205) Hexadecimal))] /\
+  run (s "0xCD") = [Some (s "$0,00", Some (TMoney (f64_of_Z 0) (s "XCD")))] /\
+  run (s "175 to hex") = [Some (s "0xAF", Some (TNumber (f64_of_Z 175) Hexadecimal))] /\
+  run (s "0xAF") = [Some (s "0,00F", Some (TMoney (f64_of_Z 0) (s "XAF")))] /\
+  run (s "6893 to hex") = [Some (s "0x1AED", Some (TNumber (f64_of_Z 6893) Hexadecimal))] /\
+  run (s "0x1AED") = [None] /\
+  e2e Hexadecimal 205 = false /\ e2e Hexadecimal 175 = false /\ e2e Hexadecimal 6893 = false.
+Proof. vm_compute. repeat split; reflexivity. Qed.
+
+(* the class of the defect, as a decidable predicate on a line: no digit is followed by a
+   maximal run of two or more letters that read_currency (alias or code, lower-cased) accepts.
+   Octal and binary literals are always free of it (their only letter run is the single o / b). *)
+Definition is_dec (c : N) : bool := (N.leb 48 c && N.leb c 57)%bool.
+Definition is_alpha (c : N) : bool := ((N.leb 97 c && N.leb c 122) || (N.leb 65 c && N.leb c 90))%bool.
+Definition run_ok (after_digit : bool) (run : str) : bool :=
+  negb (after_digit && Nat.leb 2 (length run) && is_some (read_currency default_config (rev run))).
+Fixpoint hcf (x : str) (after_digit : bool) (run : str) : bool :=
+  match x with
+  | [] => run_ok after_digit run
+  | c :: r => if is_alpha c then hcf r after_digit (c :: run)
+              else run_ok after_digit run && hcf r (is_dec c) []
+  end.
+Definition hex_currency_free (x : str) : bool := hcf x false [].
+Definition printed_hex (n : Z) : str := s "0x" ++ radix_digits 70 true 16 n [].
+
+Definition small_and_witnesses : list Z :=
+  map Z.of_nat (seq 0 1024) ++ [2800; 3281; 6893; 15583; 182997; 5749713; 3005; 64721; 3735928559].
+
+(* on every n < 1024 and on the listed larger values the whole-line round trip holds EXACTLY
+   when the printed literal is hex_currency_free *)
+Theorem readback_iff_free :
+  forallb (fun n => Bool.eqb (e2e Hexadecimal n) (hex_currency_free (printed_hex n))) small_and_witnesses = true.
+Proof. vm_compute. reflexivity. Qed.
+
+(* the family of e2e_family is inside the predicate; the refuted witnesses are outside *)
+Theorem e2e_family_free : forall n, In n (pow2_family 52) ->
+  hex_currency_free (printed_hex n) = true /\ e2e Hexadecimal n = true.
+Proof.
+  assert (H : forallb (fun n => hex_currency_free (printed_hex n) && e2e Hexadecimal n) (pow2_family 52) = true)
+    by (vm_compute; reflexivity).
+  intros n Hin. rewrite forallb_forall in H. apply andb_true_iff. exact (H n Hin).
+Qed.
+
+Theorem refuted_not_free :
+  map (fun n => hex_currency_free (printed_hex n)) [205; 175; 6893] = [false; false; false].
+Proof. vm_compute. reflexivity. Qed.
+
+(* ------------------------------------------------------------------------------------- *)
+(* 7''. binary64 in general: every 0 <= n < 2^53 is held exactly.  Uses two axioms of Coq's    *)
+(* Floats library (the specification of the primitive floats): Prim2SF_SF2Prim and           *)
+(* FloatAxioms.eqb_spec.  The family theorems above do not depend on them.                   *)
+(* ------------------------------------------------------------------------------------- *)
+(* fdiv by 1 *)
+Lemma fdiv_loop_one : forall fuel i r q, 0 <= r < 2 ^ (i + 1) -> Z.of_nat fuel = i + 1 ->
+  fdiv_loop fuel i 1 r q = (q * 2 ^ (i + 1) + r, 0).
+Proof.
+  induction fuel as [|f IH]; intros i r q Hr Hf.
+  - cbn [fdiv_loop]. assert (i + 1 = 0) by lia. rewrite H in *. change (2 ^ 0) with 1 in *.
+    f_equal; lia.
+  - cbn [fdiv_loop]. rewrite Nat2Z.inj_succ in Hf.
+    assert (Hi : 0 <= i) by lia.
+    rewrite Z.shiftl_1_l.
+    replace (i + 1) with (Z.succ i) in * by lia. rewrite Z.pow_succ_r in * by lia.
+    destruct (Z.leb_spec (2 ^ i) r) as [Hle|Hgt].
+    + rewrite IH by (replace (i - 1 + 1) with i by lia; lia).
+      replace (i - 1 + 1) with i by lia. rewrite Z.succ_double_spec. f_equal. ring.
+    + rewrite IH by (replace (i - 1 + 1) with i by lia; lia).
+      replace (i - 1 + 1) with i by lia. rewrite Z.double_spec. f_equal. ring.
+Qed.
+
+Lemma fdiv_one a : 0 < a -> fdiv a 1 = (a, 0).
+Proof.
+  intro Ha. unfold fdiv. destruct (Z.ltb_spec a 1); [lia|].
+  change (Z.log2 1) with 0. rewrite Z.sub_0_r.
+  pose proof (Z.log2_nonneg a). pose proof (Z.log2_spec a Ha) as [_ Hs].
+  rewrite fdiv_loop_one; [f_equal; lia | | lia].
+  replace (Z.log2 a + 1) with (Z.succ (Z.log2 a)) by lia. lia.
+Qed.
+
+Lemma digits2_size p : SpecFloat.digits2_pos p = Pos.size p.
+Proof. induction p; cbn; congruence. Qed.
+
+Lemma log2_size p : Z.pos (Pos.size p) = Z.log2 (Z.pos p) + 1.
+Proof. destruct p; cbn; lia. Qed.
+
+Definition norm_m (n : Z) : Z := n * 2 ^ (52 - Z.log2 n).
+
+Lemma norm_m_bounds n : 0 < n < 2 ^ 53 -> 2 ^ 52 <= norm_m n < 2 ^ 53 /\ Z.log2 (norm_m n) = 52.
+Proof.
+  intro Hn. unfold norm_m. pose proof (Z.log2_spec n ltac:(lia)) as [H1 H2].
+  assert (HL : 0 <= Z.log2 n <= 52).
+  { split; [apply Z.log2_nonneg|]. apply Z.lt_succ_r. apply Z.log2_lt_pow2; lia. }
+  assert (E : Z.log2 (n * 2 ^ (52 - Z.log2 n)) = 52).
+  { rewrite Z.log2_mul_pow2 by lia. lia. }
+  split; [|exact E].
+  assert (Hp : 0 < n * 2 ^ (52 - Z.log2 n)) by (apply Z.mul_pos_pos; [lia | apply Z.pow_pos_nonneg; lia]).
+  pose proof (Z.log2_spec _ Hp) as [H3 H4]. rewrite E in H3, H4. exact (conj H3 H4).
+Qed.
+
+Lemma f64_of_Z_exact n : 0 < n < 2 ^ 53 ->
+  f64_of_Z n = SF2Prim (S754_finite false (Z.to_pos (norm_m n)) (Z.log2 n - 52)).
+Proof.
+  intro Hn.
+  pose proof (norm_m_bounds n Hn) as [Hb HLm].
+  assert (HL : 0 <= Z.log2 n <= 52).
+  { split; [apply Z.log2_nonneg|]. apply Z.lt_succ_r. apply Z.log2_lt_pow2; lia. }
+  unfold f64_of_Z. destruct n as [|p|p]; try lia.
+  unfold f64_of_ratio.
+  set (n := Z.pos p) in *.
+  replace (n <=? 0) with false by (symmetry; apply Z.leb_gt; lia).
+  change (1 <=? 0) with false. cbn [orb].
+  change (Z.log2 1) with 0. rewrite Z.sub_0_r.
+  replace (1026 <? Z.log2 n) with false by (symmetry; apply Z.ltb_ge; lia).
+  replace (Z.log2 n <? -1080) with false by (symmetry; apply Z.ltb_ge; lia).
+  rewrite Z.max_l by lia.
+  replace (0 <=? Z.log2 n - 53) with false by (symmetry; apply Z.leb_gt; lia).
+  rewrite Z.shiftl_mul_pow2 by lia.
+  replace (- (Z.log2 n - 53)) with (Z.succ (52 - Z.log2 n)) by lia.
+  rewrite Z.pow_succ_r by lia.
+  replace (n * (2 * 2 ^ (52 - Z.log2 n))) with (2 * norm_m n) by (unfold norm_m; ring).
+  rewrite fdiv_one by lia.
+  unfold pow2. rewrite Z.shiftl_1_l.
+  replace (2 ^ 53 <=? 2 * norm_m n) with true by (symmetry; apply Z.leb_le; lia).
+  rewrite Z.div2_div. replace (2 * norm_m n / 2) with (norm_m n) by (rewrite Z.mul_comm, Z.div_mul; lia).
+  replace (Z.odd (2 * norm_m n)) with false by (symmetry; rewrite Z.odd_mul; reflexivity).
+  change (Z.double 0 ?= Z.double 1) with Lt. cbv iota.
+  unfold f64_make.
+  destruct (norm_m n) as [|q|q] eqn:Eq; try lia.
+  replace (971 <? Z.log2 n - 53 + 1) with false by (symmetry; apply Z.ltb_ge; lia).
+  replace (Z.log2 n - 53 + 1 =? 971) with false by (symmetry; apply Z.eqb_neq; lia).
+  cbn [orb andb]. replace (Z.log2 n - 53 + 1) with (Z.log2 n - 52) by lia. reflexivity.
+Qed.
+
+Lemma valid_norm n : 0 < n < 2 ^ 53 ->
+  SpecFloat.valid_binary prec emax (S754_finite false (Z.to_pos (norm_m n)) (Z.log2 n - 52)) = true.
+Proof.
+  intro Hn. pose proof (norm_m_bounds n Hn) as [Hb HLm].
+  assert (HL : 0 <= Z.log2 n <= 52).
+  { split; [apply Z.log2_nonneg|]. apply Z.lt_succ_r. apply Z.log2_lt_pow2; lia. }
+  unfold SpecFloat.valid_binary, SpecFloat.bounded, SpecFloat.canonical_mantissa, SpecFloat.fexp, SpecFloat.emin.
+  rewrite digits2_size, log2_size. rewrite Z2Pos.id by lia. rewrite HLm.
+  change prec with 53. change emax with 1024.
+  apply andb_true_intro. split.
+  - apply Zeq_is_eq_bool. lia.
+  - apply Z.leb_le. lia.
+Qed.
+
+Theorem Prim2SF_of_Z n : 0 < n < 2 ^ 53 ->
+  Prim2SF (f64_of_Z n) = S754_finite false (Z.to_pos (norm_m n)) (Z.log2 n - 52).
+Proof.
+  intro Hn. rewrite f64_of_Z_exact by assumption. apply Prim2SF_SF2Prim, valid_norm, Hn.
+Qed.
+
+Lemma cls_finite x m e : Prim2SF x = S754_finite false m e -> f64_cls x = FFinite.
+Proof.
+  intro H. unfold f64_cls, PrimFloat.is_nan. rewrite !FloatAxioms.eqb_spec, H.
+  change (Prim2SF infinity) with (S754_infinity false).
+  change (Prim2SF neg_infinity) with (S754_infinity true).
+  unfold SFeqb, SFcompare. rewrite Z.compare_refl, Pos.compare_cont_refl. reflexivity.
+Qed.
+
+Theorem as_i64_fofZ_64 n : 0 <= n < 2 ^ 53 -> as_i64 (fofZ n : float) = n.
+Proof.
+  intro Hn. destruct (Z.eq_dec n 0) as [->|Hz]; [vm_compute; reflexivity|].
+  assert (Hp : 0 < n < 2 ^ 53) by lia.
+  pose proof (Prim2SF_of_Z n Hp) as HP. pose proof (norm_m_bounds n Hp) as [Hb _].
+  assert (HL : 0 <= Z.log2 n <= 52).
+  { split; [apply Z.log2_nonneg|]. apply Z.lt_succ_r. apply Z.log2_lt_pow2; lia. }
+  unfold as_i64, f_as. cbn [fcls fofZ ftruncZ NumF64].
+  rewrite (cls_finite _ _ _ HP).
+  unfold f64_truncZ, f64_to_Z_trunc, f64_decode. rewrite HP.
+  rewrite Z2Pos.id by lia.
+  assert (E : (if 0 <=? Z.log2 n - 52 then Z.shiftl (norm_m n) (Z.log2 n - 52)
+               else Z.shiftr (norm_m n) (- (Z.log2 n - 52))) = n).
+  { destruct (Z.leb_spec 0 (Z.log2 n - 52)).
+    - replace (Z.log2 n - 52) with 0 by lia. rewrite Z.shiftl_0_r. unfold norm_m.
+      replace (52 - Z.log2 n) with 0 by lia. change (2 ^ 0) with 1. lia.
+    - rewrite Z.shiftr_div_pow2 by lia. unfold norm_m.
+      replace (- (Z.log2 n - 52)) with (52 - Z.log2 n) by lia.
+      apply Z.div_mul. apply Z.pow_nonzero; lia. }
+  rewrite E. unfold clampZ.
+  destruct (Z.ltb_spec n (- 2 ^ 63)); [lia|]. destruct (Z.ltb_spec (2 ^ 63 - 1) n); lia.
+Qed.
+
+(* so every integer below 2^53 prints as prefix + its digits and that text reads back as the
+   same float *)
+Theorem print_read_64 cfg lang year n t : based t -> 0 <= n < 2 ^ 53 ->
+  exists ds,
+    item_print cfg lang year (INumber (fofZ n : float) t) = Ok (prefix_of t ++ ds) /\
+    ds = radix_digits 70 (upper_of t) (base_of t) n [] /\
+    radix_value (base_of t) ds 0 = Some n /\
+    from_radix (base_of t) ds = Some (fofZ n : float).
+Proof.
+  intros Ht Hn. apply print_read_int; [assumption | lia | apply as_i64_fofZ_64; assumption].
+Qed.
 
 (* ------------------------------------------------------------------------------------- *)
 (* 7'. exact rationals: every i64 is held exactly                                          *)
